@@ -988,8 +988,13 @@ pub fn block_iter_cursor(restart_interval: usize, entries: &[(Vec<u8>, u64, bool
 pub fn block_roundtrip(restart_interval: usize, entries: &[(Vec<u8>, u64, bool, Vec<u8>)], reuse: bool) -> Option<Vec<(Vec<u8>, u64, bool, Vec<u8>)>> {
     let mut b: crate::tables::BlockBuilderForVerif = crate::tables::new_block_builder_for_verif(restart_interval);
     if reuse {
+        // the earlier block ends with the very key the next block starts with (as much shared prefix as there can be)
         b.add_entry(std::rc::Rc::new(InternalKey::new(b"earlier-block".to_vec(), 7, op(true))), b"earlier value");
-        b.add_entry(std::rc::Rc::new(InternalKey::new(b"earlier-block".to_vec(), 3, op(false))), b"");
+        if let Some(e) = entries.first() {
+            if e.0.as_slice() > b"earlier-block".as_slice() {
+                b.add_entry(std::rc::Rc::new(InternalKey::new(e.0.clone(), e.1, op(e.2))), b"x");
+            }
+        }
         let _ = b.finalize();
         b.reset();
     }
